@@ -107,9 +107,17 @@ def check(ctx):
     RR = "C12/response"
     rets = return_expr(an)
     oks = find_all(rets, lambda x: x[0] == "agg" and x[1].endswith("Result::Ok"))
-    ctx.exact(RR, "Ok(profile) construction", len(oks), 1, mb.loc)
-    for o in oks:
-        v = o[2][0][1]
+    succ = [o[2][0][1] for o in oks]
+    if not succ:
+        # the Result of the last step returned as it is (`.json().await.map_err(..)` without `?` + `Ok(..)`)
+        leaves = flow.strip(rets)
+        leaves = leaves[1] if leaves[0] == "phi" else (leaves,)
+        for l in leaves:
+            l = flow.strip(l)
+            if l[0] == "call" and flow.short(l[1]).split("::")[-1] == "map_err":
+                succ.append(("try", l))
+    ctx.exact(RR, "Ok(profile) construction", len(succ), 1, mb.loc)
+    for v in succ:
         chain = []
         x = v
         for _ in range(40):
